@@ -35,6 +35,16 @@ def main(argv):
     warnings.filterwarnings("ignore")
     import mc
     mc.assert_repo_binding()
+    from mc import world
+    root = world.make_root()
+    try:
+        return _main(argv)
+    finally:
+        world.remove_root(root)
+
+
+def _main(argv):
+    import mc
     from mc.report import Reporter
     from mc.seams import HarnessError
     if len(argv) >= 2 and argv[0] == "replay":
